@@ -335,4 +335,26 @@ def rule_f(ctx: Ctx, rule: str = 'C08.f') -> None:
     ctx.explain(f'{rule}: typestate of the converter xmlns scope over the CFG of XsdElement.raw_decode.')
 
 
-RULES = [rule_a, rule_b, rule_c, rule_d, rule_e, rule_f]
+def rule_g(ctx: Ctx) -> None:
+    """A field that is present has its own value, the empty string included; the declared default/fixed value stands in only for a
+    field that is absent (so '' is a key value like any other and is not taken for a missing field)."""
+    rule = 'C08.g'
+    f = ctx.idx.method('xmlschema.validators.identities.FieldValueSelector', 'get_value')
+    ctx.analysed(f.qualname)
+    g = cfg_of(ctx, f)
+    fb = [n for n in g.nodes if n.kind == 'stmt' and isinstance(n.ast, ast.Assign) and text(n.ast.targets[0]) == 'value'
+          and 'self.value_constraints.get(' in text(n.ast.value)]
+    ctx.floor(rule, 'fallbacks to the declared value constraint in FieldValueSelector.get_value', len(fb), 2)
+    for n in fb:
+        gs = guards(ctx, f, n)
+        direct = [t for t, lab in gs if lab == 'T' and ('value' in t.split() or t.startswith('value ') or t == 'empty' or 'value is None' in t)]
+        ok = any(t in ('value is None', 'empty') for t in direct) and not any((' or ' in t or '==' in t or t.startswith('not value')) for t in direct)
+        ctx.ob(rule, f'FieldValueSelector.get_value: `{text(n.ast)[:50]}` stands in for an absent field only', f.loc(n.ast), ok,
+               '' if ok else f'fallback under {direct[:2]}: a field that is present with an empty (or otherwise falsy) value is replaced by the constraint - without a '
+               'constraint it becomes None, a "missing key field" error for a valid document, and empty-string duplicates or dangling references pass',
+               key=f'get_value|fallback|{text(n.ast)[:40]}')
+    ctx.explain('C08.g: the path condition of the fallback `value = self.value_constraints.get(…)` is exactly the absence test '
+                '(`value is None` / `empty`).')
+
+
+RULES = [rule_a, rule_b, rule_c, rule_d, rule_e, rule_f, rule_g]
